@@ -56,6 +56,7 @@ theorem argElem_ok (ns : List XNs) (cx : XCtx) (p an v X : Bytes) (self : Option
     ?_, rfl, rfl, rfl, by simp [h4n, hrm]⟩
   simp only [parseGeneric, hmk, remapArg_ext, e1, hga, Except.map, mkwToYKw]
   simp [h4s, h4w, h4v, hne, e2, hpfx, hname]
+  done
 
 end LyModel.Yin
 
